@@ -19,5 +19,10 @@ ROWS = {
   "exhaustive unit impulses + property-based testing (rapid): differential asm vs portable kernels, reference float64 DCT-II by definition, guard words",
   "All unit impulses (both signs, every slice offset 0..7) of the 64/256-point kernels and of the 64x64 2-D kernel are enumerated; rapid draws vectors over 12 decades, mixed scales, sparse, pixel-range, extreme, denormal and structured inputs; oracles: assembly and portable results bit-identical, NaN-payload guard words around the argument intact, |kernel - DCT-II| <= 1e-5 ||x||_1 against a direct O(N^2) float64 evaluation (float64 kernels 1e-12), hashes identical under portable and platform kernel selection.",
   "Trusted: math.Cos and float64 summation in the reference; hooks in imagehash/transforms32 (build tag verif) that expose the unexported kernels. Three recorded findings (256-point accuracy on sparse inputs; sign of zero in the two 1-D assembly kernels). Needs an AVX2 CPU for the assembly halves (evidence says whether it had one)."),
+
+ "C19": ("exploration",
+  "property-based testing (rapid) against a reference model: float64 DCT-II by definition of an independently computed luminance, threshold / upper-set oracle with a stated margin",
+  "Generated images of the exact size (four pixel formats, seven content classes, origin and sub-image forms with hostile surroundings) are hashed by the primary and alternative implementations; the bits are checked against reference coefficients: above the upper median + tau set, below the median - tau clear, one threshold separates, repeated calls agree, primary vs alternative and sub-image vs origin form differ only within 2 tau of the median; wrong sizes (incl. the shapes the old guard formula let through) and nil must give an error and a zero hash with poisoned pools; distance laws on random triples.",
+  "Trusted: internal/imgen (image construction and reference luminance), the margin constants tau = 4e-5 / 2e-4 x ||lum||_1 (fixed, from C18's measured kernel error). Opaque RGBA/NRGBA only; YCbCr 4:4:4 only (other ratios: C20)."),
 }
 NOT_APPLICABLE = {}
